@@ -403,6 +403,15 @@ class Effects:
                 roots = s.alias.get(recv.id)
                 if roots and len(roots) == 1:
                     path = next(iter(roots))
+                elif roots and all("." not in r for r in roots):
+                    # local variable standing for one of several fields of self: one target set per field
+                    for r in sorted(roots):
+                        for t in self.field_types(s.ctx, r):
+                            m = t.find_method(name)
+                            if m is not None:
+                                out.append((t, m, r))
+                    if out:
+                        return out
             for t in types:
                 m = t.find_method(name)
                 if m is not None:
@@ -540,11 +549,12 @@ class Effects:
 
     def _trans(self, ctx, func, kind):
         """kind: 'w' writes, 'r' reads, 'wx' writes not counting anything done inside property getters (read-only by convention)"""
-        if kind == "wx":
-            cache = self.__dict__.setdefault("_trans_wx", {})
+        if kind not in ("w", "r"):
+            cache = self.__dict__.setdefault("_trans_" + kind, {})
         else:
             cache = self._trans_w if kind == "w" else self._trans_r
-        site_kind = "w" if kind == "wx" else kind
+        site_kind = "r" if kind == "r" else "w"
+        skip = self._skip_pred(kind)
         key = (id(ctx), id(func))
         if key in cache:
             return cache[key]
@@ -561,7 +571,7 @@ class Effects:
             order.append(k)
             for cs in self.summary(c, f).calls:
                 for c2, f2 in cs.targets:
-                    if kind == "wx" and f2.kind == "getter":
+                    if skip(cs, f2):
                         continue
                     if (id(c2), id(f2)) not in seen:
                         stack.append((c2, f2))
@@ -582,7 +592,7 @@ class Effects:
                     if cs.is_ctor:
                         continue
                     for c2, f2 in cs.targets:
-                        if kind == "wx" and f2.kind == "getter":
+                        if skip(cs, f2):
                             continue
                         sub = val.get((id(c2), id(f2)), cache.get((id(c2), id(f2)), set()))
                         for pth in sub:
@@ -594,6 +604,15 @@ class Effects:
             cache[k] = val[k]
         return cache[key]
 
+    def _skip_pred(self, kind):
+        """call-site filter of a transitive kind: 'wx' skips property getters; custom kinds registered in self.skip_call add their own"""
+        custom = self.__dict__.get("skip_call", {}).get(kind)
+        if kind in ("w", "r"):
+            return lambda cs, f2: False
+        if custom is None:
+            return lambda cs, f2: f2.kind == "getter"
+        return lambda cs, f2: f2.kind == "getter" or custom(cs, f2)
+
     # ----------------------------------------------------------- per-statement effects
     def node_effects(self, ctx, func, parts, kind="w"):
         """Field paths written/read when the AST parts (of one CFG node) execute, incl. transitive callee effects."""
@@ -603,14 +622,15 @@ class Effects:
             for n in walk_no_nested(part):
                 ids.add(id(n))
         out = set()
-        site_kind = "w" if kind == "wx" else kind
+        site_kind = "r" if kind == "r" else "w"
+        skip = self._skip_pred(kind)
         for st in s.sites:
             if st.kind == site_kind and id(st.node) in ids:
                 out.add(st.path)
         for cs in s.calls:
             if id(cs.node) in ids and cs.prefix is not None and not cs.is_ctor:
                 for c2, f2 in cs.targets:
-                    if kind == "wx" and f2.kind == "getter":
+                    if skip(cs, f2):
                         continue
                     for pth in self._trans(c2, f2, kind):
                         out.add((cs.prefix + "." if cs.prefix else "") + pth)
